@@ -42,15 +42,16 @@ pub fn stop_points(spec: &RootSpec, d: u8, warm: bool, only_n: Option<u64>, acc:
     let p = free.polls;
     acc.states += 1;
     acc.max("polls in one free run", p);
+    // u64::MAX stands for "the stop is already in when the search function is entered" (go overtaken by stop; a zero budget)
     let range: Vec<u64> = match only_n {
         Some(n) => vec![n],
-        None => (0..=p).collect(),
+        None => std::iter::once(u64::MAX).chain(0..=p).collect(),
     };
     for n in range {
         let mut t = make_table();
         let mut cfg = SearchCfg::depth(d);
         cfg.stop_at = n;
-        let run = run_search(&game, &mut t, &cfg);
+        let run = if n == u64::MAX { run_search_flag(&game, &mut t, &cfg, false) } else { run_search(&game, &mut t, &cfg) };
         acc.evaluations += 1;
         acc.transitions += 1;
         let key_class = format!("{}|d{}|{}", spec.text(), d, if warm { "warm" } else { "fresh" });
@@ -60,7 +61,7 @@ pub fn stop_points(spec: &RootSpec, d: u8, warm: bool, only_n: Option<u64>, acc:
                 if !legal.is_empty() {
                     acc.outcome("stopped: no move although legal moves exist");
                     // one finding per (root, depth, table): the smallest N is the witness
-                    acc.violation(format!("c07-none|{}", key_class), format!("stop at poll {} of {} => no move announced although {} has legal moves [{} depth {}{}]", n, p, pos.fen4(false), spec.text(), d, if warm { ", table warmed by a depth-1-less search" } else { "" }), replay_json(spec, d, n, warm));
+                    acc.violation(format!("c07-none|{}", key_class), format!("stop at poll {} (18446744073709551615 = before the search started) of {} => no move announced although {} has legal moves [{} depth {}{}]", n, p, pos.fen4(false), spec.text(), d, if warm { ", table warmed by a depth-1-less search" } else { "" }), replay_json(spec, d, n, warm));
                 } else {
                     acc.outcome("stopped: no move, none exists");
                 }
